@@ -441,10 +441,6 @@ def frame_verify(res, expd, vals, miss, rlabels, clabels, src):
     return None
 
 
-def layout_tag(lay):
-    return 'single-1d-block' if tuple(map(tuple, lay)) == ((1, True),) else None
-
-
 def _scheme(op):
     return op[2] if op[0] in ('fillna_frame', 'fillna_series') else 'str'
 
@@ -469,7 +465,6 @@ def check_frame_case(rows, kinds, pattern, lay, op, tier, cache=None):
     if f is None:
         f = cache[('frame', lay, scheme)] = frame_from(cols, lay, index=rlabels, column_labels=clabels)
     name = opname(op, 'frame')
-    suffix = ''
     where = f'kinds={kinds} rows={rows} pattern={pattern:#x} layout={lay}'
     try:
         res = frame_apply(f, op, filler_frames)
@@ -478,7 +473,7 @@ def check_frame_case(rows, kinds, pattern, lay, op, tier, cache=None):
     v = frame_verify(res, expd, vals, miss, rlabels, clabels, f)
     if v is None:
         return None
-    return (f'C14:frame.{name}:{v[0]}{suffix}', f'Frame.{op}: {v[0]}: {v[1]} ({where})')
+    return (f'C14:frame.{name}:{v[0]}', f'Frame.{op}: {v[0]}: {v[1]} ({where})')
 
 
 # ---------------------------------------------------------------------------------------------
